@@ -98,6 +98,24 @@ pub fn run(ctx: &Ctx) -> Value {
             }
         }
     }
+    // other routes to the same operations must agree with the checked forms: compound assignment, Sum over values and over
+    // references, operator Neg, PartialOrd, Default, the deprecated min_value/max_value aliases
+    for i in 0..ctx.t(1_500, 60_000) {
+        let a = *rng.pick(&lat);
+        let b = *rng.pick(&lat);
+        let k = *rng.pick(&ks);
+        match i % 7 {
+            0 => tw.emit(ev("o.add", json!({"a": dur(a), "b": dur(b), "via": "add_assign"}), || { let mut x = a; x += b; json!({"r": dur(x)}) })),
+            1 => tw.emit(ev("o.sub", json!({"a": dur(a), "b": dur(b), "via": "sub_assign"}), || { let mut x = a; x -= b; json!({"r": dur(x)}) })),
+            2 => tw.emit(ev("o.sum", json!({"a": dur(a), "b": dur(b), "via": "sum_values"}), || json!({"r": dur(vec![a, b].into_iter().sum::<TimeDelta>())}))),
+            3 => tw.emit(ev("d.neg", json!({"a": dur(a), "via": "neg_op"}), || { #[allow(deprecated)] let _ = TimeDelta::min_value(); json!({"r": dur(core::ops::Neg::neg(a)), "abs": dur(a.abs()), "zero": a == TimeDelta::zero()}) })),
+            4 => tw.emit(ev("d.cmp", json!({"a": dur(a), "b": dur(b), "via": "partial_cmp"}), || json!({"c": a.partial_cmp(&b).unwrap() as i8, "eq": !(a != b)}))),
+            5 => tw.emit(ev("o.mul", json!({"a": dur(a), "k": big(k as i128), "via": "mul_op"}), || json!({"r": dur(a * k)}))),
+            _ => tw.emit(ev("o.div", json!({"a": dur(a), "k": big(k as i128), "via": "div_op"}), || json!({"r": dur(a / k)}))),
+        }
+    }
+    #[allow(deprecated)]
+    tw.emit(ev("d.const", json!({"via": "deprecated aliases"}), || json!({"min": dur(TimeDelta::min_value()), "max": dur(TimeDelta::max_value()), "zero": dur(TimeDelta::default())})));
     // sessions: operator chains on a register; the trace spec checks the range invariant in every state
     let sessions = ctx.t(600, 30_000);
     for _ in 0..sessions {
